@@ -839,7 +839,7 @@ func (f *Frame) siteObligs(in *ssa.Call) {
 		}
 		g.siteSeq[sc.Label]++
 		g.addOblig(&Oblig{Name: f.obName("site", &Clause{Label: fmt.Sprintf("%s.%d", sc.Label, g.siteSeq[sc.Label])}, 0), Kind: "site",
-			Goal: implies(f.curReach, goal), Pos: f.pos(in.Pos()), Text: sc.Pattern + " requires " + sc.Text,
+			Goal: implies(f.curReach, goal), Pos: f.pos(in.Pos()), Text: sc.Pattern + " requires " + sc.Text, ClauseProps: sc.Props,
 			ReplayTemplate: g.FC.Opts["scenario"], ReplayPkgDir: strings.TrimPrefix(strings.TrimPrefix(g.FC.Pkg, modPath), "/")})
 		g.siteHits[sc.Label]++
 	}
@@ -879,7 +879,7 @@ func (f *Frame) siteStoreObligs(in *ssa.Store) {
 		}
 		g.siteSeq[sc.Label]++
 		g.addOblig(&Oblig{Name: f.obName("site", &Clause{Label: fmt.Sprintf("%s.%d", sc.Label, g.siteSeq[sc.Label])}, 0), Kind: "site",
-			Goal: implies(f.curReach, goal), Pos: f.pos(in.Pos()), Text: sc.Pattern + " requires " + sc.Text,
+			Goal: implies(f.curReach, goal), Pos: f.pos(in.Pos()), Text: sc.Pattern + " requires " + sc.Text, ClauseProps: sc.Props,
 			ReplayTemplate: g.FC.Opts["scenario"], ReplayPkgDir: strings.TrimPrefix(strings.TrimPrefix(g.FC.Pkg, modPath), "/")})
 		g.siteHits[sc.Label]++
 	}
